@@ -81,6 +81,8 @@ def run_case(ctx, case_seed):
     prog = gen_program(rng, max_out_decls=3, max_in_decls=2, explicit_raise=0.2)
     if not prog['outputs']:
         prog = gen_program(random.Random(case_seed + 7), max_out_decls=3, max_in_decls=2)
+    if rng.random() < 0.25:
+        prog['extractor'] = 'ok_calls_output'    # user code running after the operation ended uses an intercepted output as well
     for d in prog['outputs']:
         d['fail_on_no_result'] = False      # so that added output calls can be replayed
         d['default'] = None
